@@ -40,6 +40,7 @@ type PropCfg struct {
 	Assumptions []string   `json:"assumptions"`
 	Outside     []string   `json:"outside"`
 	ExtraNoop   []string   `json:"extra_noop"`
+	SolverMode  string     `json:"solver_mode"` // "fresh": non-incremental queries (arithmetic kernels)
 }
 
 type KnownFinding struct {
@@ -201,6 +202,8 @@ func checkMain(args []string) int {
 		}
 		e := newEngine(prog, pkg, []string{"z3", "-in"})
 		e.extraNoop = pc.ExtraNoop
+		e.solverFresh = pc.SolverMode == "fresh" || pc.SolverMode == "int-fresh"
+		e.solverInt = pc.SolverMode == "int" || pc.SolverMode == "int-fresh"
 		params := ec.Quick
 		maxPaths := ec.MaxPaths
 		to := ec.Timeout
